@@ -23,6 +23,8 @@ const (
 	dStoredMeta = "*call:(pkg/resource.Resource).Metadata(" + dStored + ")"
 	dCopy       = "call:(pkg/resource.Resource).DeepCopy(param#2)"
 	dCopyMeta   = "*call:(pkg/resource.Resource).Metadata(" + dCopy + ")"
+	// the submitted resource, read either from the caller's object or from its deep copy (same ID and version until SetVersion)
+	dNewMeta = "*call:(pkg/resource.Resource).Metadata(*param#2*)"
 )
 
 var collectionLock = LockSpec{Rel: pkgInmem, Struct: "ResourceCollection", Mutex: "mu", Guarded: []string{"storage", "stream", "writePos", "capacity"}}
@@ -136,8 +138,8 @@ func runC01(c *Ctx) {
 	fUpdate := p.Method(pkgInmem, "ResourceCollection", "Update")
 	ownerEqU := FactEdge("eq(call:(pkg/resource.Metadata).Owner(" + dStoredMeta + "),*param#3.Owner)")
 	verEq := FactEdge(
-		"true(call:(pkg/resource.Version).Equal(call:(pkg/resource.Metadata).Version("+dStoredMeta+"),call:(pkg/resource.Metadata).Version("+dCopyMeta+")))",
-		"true(call:(pkg/resource.Version).Equal(call:(pkg/resource.Metadata).Version("+dCopyMeta+"),call:(pkg/resource.Metadata).Version("+dStoredMeta+")))",
+		"true(call:(pkg/resource.Version).Equal(call:(pkg/resource.Metadata).Version("+dStoredMeta+"),call:(pkg/resource.Metadata).Version("+dNewMeta+")))",
+		"true(call:(pkg/resource.Version).Equal(call:(pkg/resource.Metadata).Version("+dNewMeta+"),call:(pkg/resource.Metadata).Version("+dStoredMeta+")))",
 	)
 	phaseOK := FactEdge("nil(*param#3.ExpectedPhase)", "eq(call:(pkg/resource.Metadata).Phase("+dStoredMeta+"),**param#3.ExpectedPhase)")
 
@@ -254,7 +256,7 @@ func c01Effects(c *Ctx, rule string, fCreate, fUpdate, fDestroy *ssa.Function) {
 		sv := one(f, "SetVersion", p.Calls(f, "(*pkg/resource.Metadata).SetVersion"))
 		argIs(f, "SetVersion target is the deep copy", sv, 0, "call:(pkg/resource.Resource).Metadata("+dCopy+")")
 		argIs(f, "new version = exactly one Next() of the version that passed the Equal guard", sv, 1,
-			"call:(pkg/resource.Version).Next(call:(pkg/resource.Metadata).Version("+dCopyMeta+"))",
+			"call:(pkg/resource.Version).Next(call:(pkg/resource.Metadata).Version("+dNewMeta+"))",
 			"call:(pkg/resource.Version).Next(call:(pkg/resource.Metadata).Version("+dStoredMeta+"))")
 
 		sc := one(f, "SetCreated", p.Calls(f, "(*pkg/resource.Metadata).SetCreated"))
@@ -268,7 +270,7 @@ func c01Effects(c *Ctx, rule string, fCreate, fUpdate, fDestroy *ssa.Function) {
 		put := one(f, "BackingStore.Put", p.Calls(f, gStorePut))
 		argIs(f, "persisted object is the deep copy", put, 3, dCopy)
 
-		c01MapWrite(c, rule, f, dCopy, "call:(pkg/resource.Metadata).ID("+dCopyMeta+")")
+		c01MapWrite(c, rule, f, dCopy, "call:(pkg/resource.Metadata).ID("+dNewMeta+")")
 		c01Publish(c, rule, f, p.ConstVal(pkgState, "Updated"), dCopy, dStored)
 		c01WriteBack(c, rule, f)
 	}
